@@ -3,6 +3,8 @@
 package strs
 
 import (
+	"go/token"
+
 	"google.golang.org/protobuf/internal/zzverif/nd"
 )
 
@@ -136,4 +138,23 @@ func H_C42_enumnames() {
 	}
 	e := MapEntryName(s)
 	nd.Assert(len(e) >= 5 && c42eq(e[len(e)-5:], "Entry"), "MapEntryName ends with Entry")
+}
+
+// H_C42_gosanitized: GoSanitized maps every string to a valid, non-keyword Go identifier. Inputs:
+// an optional ASCII letter followed by one arbitrary Basic-Multilingual-Plane rune (every Unicode
+// category, via the real unicode tables); and the empty string.
+//
+//verif:props=C42 bounds=optional-letter+one-arbitrary-BMP-rune;empty-string maxsteps=8000000 deadline=900 timeout=30000
+func H_C42_gosanitized() {
+	var s string
+	if nd.Bool() {
+		s = "k"
+	}
+	r := rune(nd.Uint16())
+	nd.Assume(r < 0xd800 || r > 0xdfff)
+	s += string(r)
+	g := GoSanitized(s)
+	nd.Reach("sanitized")
+	nd.Assert(token.IsIdentifier(g), "GoSanitized yields a valid Go identifier that is not a keyword")
+	nd.Assert(len(GoSanitized("")) > 0 && token.IsIdentifier(GoSanitized("")), "the empty string is sanitized to an identifier")
 }
